@@ -344,6 +344,20 @@ let () =
         print_endline (String.concat "|" (List.map show r))
       | [] -> ()
     done with End_of_file -> ())
+  | [| _; "c05" |] ->
+    (* stdin: one history per line: tokens  m (make a node)  |  a<n>:<m> (node n gains member m)
+       stdout: the member count of every node after the history, comma separated *)
+    let rec nat_of_int n = if n <= 0 then G.O else G.S (nat_of_int (n - 1)) in
+    (try while true do
+      let line = input_line stdin in
+      let toks = List.filter (fun w -> w <> "") (String.split_on_char ' ' line) in
+      let ops = List.map (fun t ->
+        if t = "m" then G.HMake (G.EmptyString, [], None)
+        else match String.split_on_char ':' (String.sub t 1 (String.length t - 1)) with
+          | [n; m] -> G.HAdd (nat_of_int (int_of_string n), nat_of_int (int_of_string m))
+          | _ -> failwith "bad token") toks in
+      print_endline (String.concat "," (List.map (fun l -> string_of_int (List.length l)) (G.c05_members ops)))
+    done with End_of_file -> ())
   | [| _; "c02-list" |] ->
     List.iter (fun f -> Printf.printf "%s|%s|%s|%b|%s\n" (str f.G.gf_class) (str f.G.gf_name)
                   (String.concat "," (List.map str f.G.gf_sorts)) (G.c02_exempt f) (str f.G.gf_body)) G.c02_factories
